@@ -9,7 +9,8 @@
 (*   wf      TRUE iff the file is the unmodified output of the independent *)
 (*           writer;  stored = the abstract content it wrote               *)
 (*   probes  (type, id) pairs looked up with find_item                     *)
-(*   file / raw   what datafile::Reader / raw::Reader did: the projected   *)
+(*   file / raw / off   what datafile::Reader::open, raw::Reader::new and  *)
+(*           datafile::Reader::new(File at an offset) did: the projected   *)
 (*           verdict record; open = "panic" / "hang" when the call did not *)
 (*           return normally                                               *)
 (*                                                                         *)
@@ -78,6 +79,8 @@ SpecRoundTrip(e, R, doc) ==
 \* the harness projects "raw::Reader answered exactly as datafile::Reader" as raw_same = TRUE
 \* (and then logs the observation once)
 RawObs(e) == IF e.raw_same THEN e.file ELSE e.raw
+\* the same file embedded behind foreign bytes and opened with Reader::new(File) at that offset
+OffObs(e) == IF e.off_same THEN e.file ELSE e.off
 
 Accept(e, n) ==
   LET R == Read(e.bytes, e.z)
@@ -85,14 +88,18 @@ Accept(e, n) ==
       ceF == IF e.file.open = "ok" /\ R.open = "ok" THEN ContentEq(e.file, R, e.probes) ELSE FALSE
       ceR == IF e.raw_same THEN ceF
              ELSE IF e.raw.open = "ok" /\ R.open = "ok" THEN ContentEq(e.raw, R, e.probes) ELSE FALSE
+      ceO == IF e.off_same THEN ceF
+             ELSE IF e.off.open = "ok" /\ R.open = "ok" THEN ContentEq(e.off, R, e.probes) ELSE FALSE
   \* (IF, not \/ : TLC would split a disjunction of an action into sub-actions)
   IN /\ IF SpecRoundTrip(e, R, doc) THEN TRUE ELSE PrintT(<< "SPEC-LAW-FAIL roundtrip", n >>) /\ FALSE
      /\ IF doc => R.open = "ok" THEN TRUE ELSE PrintT(<< "SPEC-LAW-FAIL doc=>accept", n >>) /\ FALSE
      /\ e.redundant_ok
      /\ PropertyOK(e, e.file, ceF, doc)
      /\ PropertyOK(e, RawObs(e), ceR, doc)
+     /\ PropertyOK(e, OffObs(e), ceO, doc)
      /\ IF Detailed(e.file, R, ceF) THEN TRUE ELSE PrintT(<< "DRIFT", n, "file", R.open, e.file.open >>)
      /\ IF Detailed(RawObs(e), R, ceR) THEN TRUE ELSE PrintT(<< "DRIFT", n, "raw", R.open, RawObs(e).open >>)
+     /\ IF Detailed(OffObs(e), R, ceO) THEN TRUE ELSE PrintT(<< "DRIFT", n, "offset", R.open, OffObs(e).open >>)
      /\ PrintT(<< "EV", n, R.open, doc, e.wf >>)
 
 Init == i = 0
@@ -110,6 +117,7 @@ Post ==
   ELSE /\ PrintT(<< "TRACE REJECTED at event", d, "of", Len(Rec) >>)
        /\ PrintT(<< "REJECTED-EVENT", ToJson([n |-> d, mut |-> Rec[d].mut,
                                                 file_open |-> Rec[d].file.open,
-                                                raw_open |-> RawObs(Rec[d]).open]) >>)
+                                                raw_open |-> RawObs(Rec[d]).open,
+                                                off_open |-> OffObs(Rec[d]).open]) >>)
        /\ TRUE
 =============================================================================
